@@ -16,6 +16,10 @@ Oracle (independent of the DUT's shift registers / bit counter):
     `word_out` (presented = value while CS was last inactive for the first word, value in the
     cycle of the previous word's last sample edge for following words: the two latch points
     the class documents).
+
+Finding on the unchanged tree (scenario predicate kf_nonpow2_after_first_word): bit_count is Signal(range(word_size))
+and is only reset by CS, so for word sizes that are not a power of two every word after the first one of a transaction
+is completed after 2**ceil(log2(word_size)) instead of word_size sample edges.
 """
 from amaranth import *
 from ..harness import Harness
@@ -36,7 +40,7 @@ ASSUMPTIONS = [
     "word_complete must follow the word's last sample edge within 3 cycles",
 ]
 BOUNDS = "BMC from reset. Free layer (sck/sdi/cs/word_out free per cycle): word sizes 2-5 x all 8 mode/bit-order " \
-         "combinations and 6,7 x 2 modes to two full words; 8 (all modes), 9 to one word + the start of the next. " \
+         "combinations to two full words; 6,7,9 (2 modes each) and 8 (4 modes) to one word + the start of the next. " \
          "Restricted layer (SCK toggling every cycle, cs/sdi/word_out free): sizes 3,5,6,7,8,9 x 8 modes and 16 to three " \
          "full words. Quick tier: a pairwise subset (sizes 3,4,5,8; every mode/bit order used at least once)"
 OUTSIDE = "word sizes above 9 (16 in the restricted layer only); more than two words with irregular SCK; SDO of the first bit in transactions whose " \
@@ -205,8 +209,7 @@ def queries(tier):
                 (5, 0, 0, True), (5, 0, 1, False), (5, 0, 1, True, True)]
     else:
         free = [(ws, *md) for ws in (2, 3, 4, 5) for md in MODES] + \
-               [(6, 0, 1, True), (6, 1, 0, False), (7, 0, 0, True), (7, 1, 1, False),
-                (5, 0, 1, True, True), (4, 1, 0, True, True)]
+               [(5, 0, 1, True, True), (4, 1, 0, True, True)]
     for cfg in free:
         ws = cfg[0]
         qs.append(Query(f"bmc_{_tag(*cfg)}", mk(*cfg), 4 * ws + 6, split=False, timeout=900,
@@ -214,7 +217,8 @@ def queries(tier):
                         desc=_desc(*cfg) + ": sck/sdi/cs/word_out free every cycle, two full words reachable"))
     # ---- layer 2: larger words, free every cycle, one full word and the start of the next (K = 2*ws + 10)
     big = [(8, 1, 1, True)] if quick else \
-          [(8, *md) for md in MODES] + [(9, 0, 1, True), (9, 1, 0, False)]
+          [(6, 0, 1, True), (6, 1, 0, False), (7, 0, 0, True), (7, 1, 1, False),
+           (8, 0, 0, True), (8, 0, 1, False), (8, 1, 0, True), (8, 1, 1, False), (9, 0, 1, True), (9, 1, 0, False)]
     for cfg in big:
         ws = cfg[0]
         qs.append(Query(f"bmc_{_tag(*cfg)}", mk(*cfg), 2 * ws + 10, split=False, timeout=900,
